@@ -20,6 +20,30 @@ EDITS = [
     ('entity_shift_constant_inlined', 'src/entity.rs', [('let key = (slot_index << ARCHETYPE_ID_BITS) | archetype_id;\n        Self { key, version }\n    }\n\n    /// Creates a new entity handle from raw', 'let key = (slot_index << 8) | archetype_id;\n        Self { key, version }\n    }\n\n    /// Creates a new entity handle from raw')], ['C14', 'C08']),
     ('query_template_comment', 'macros/src/generate/query.rs', [('// Iterate in reverse order to still visit each entity once.', '// Iterate in reverse order so that each entity is still visited once.')], ['C07']),
     ('data_rename_local', 'macros/src/data.rs', [('last_component_id', 'prev_component_id')], ['C15']),
+    ('new_helper_function', ST, [("""                #[inline(always)]
+                pub const fn capacity(&self) -> usize {
+                    self.capacity
+                }
+""", """                #[inline(always)]
+                pub const fn capacity(&self) -> usize {
+                    self.capacity
+                }
+
+                /// Returns true if no more entities fit without growing.
+                #[inline(always)]
+                pub const fn is_full(&self) -> bool {
+                    self.len == self.capacity
+                }
+""")], ['C12', 'C01']),
+    ('inline_attribute_changed', ST, [("""                #[inline(always)]
+                fn grow(&mut self) -> bool {""", """                #[inline]
+                fn grow(&mut self) -> bool {""")], ['C12']),
+    ('doc_comment_changed', 'src/entity.rs', [('/// Returns self.\n    #[inline(always)]\n    pub fn into_any(self) -> EntityAny {', '/// Returns this handle unchanged.\n    #[inline(always)]\n    pub fn into_any(self) -> EntityAny {')], ['C14']),
+    ('slot_release_statement_order', 'src/archetype/slot.rs', [("""        self.index = index_next_free;
+        self.version = next_version;""", """        self.version = next_version;
+        self.index = index_next_free;""")], ['C01', 'C08']),
+    ('destroy_use_local_len', ST, [("""                        let last_dense_index = self.len - 1;""", """                        let current_len = self.len;
+                        let last_dense_index = current_len - 1;""")], ['C01', 'C02']),
     ('version_next_explicit_match', 'src/version.rs', [], ['C08']),
 ]
 
